@@ -814,7 +814,7 @@ func main() {
 		}
 		return rn.nameID(s)
 	}
-	cw := vh.NewCases(a, "From Coq Require Import List NArith ZArith.\nFrom Verif Require Import C27.Model.\nImport ListNotations.\nOpen Scope Z_scope.", "case", "mismatches", map[bool]int{false: 25, true: 150}[a.Thorough()])
+	cw := vh.NewCases(a, "From Coq Require Import List NArith ZArith.\nFrom Verif Require Import C27.Model.\nImport ListNotations.\nOpen Scope Z_scope.", "case", "mismatches", map[bool]int{false: 25, true: 220}[a.Thorough()]) // thorough: 7000 cases in <= 32 shards
 
 	var hists [][]source
 	var sets []fsCase
@@ -834,7 +834,7 @@ func main() {
 		rep.Extra["corpus_cases"] = len(hists) + len(sets)
 		nA, nB := 300, 400
 		if a.Thorough() {
-			nA, nB = 4000, 8000
+			nA, nB = 3000, 4000 // 10x quick; 12000 cases were 81 Coq shards = 50 min at load 100+
 		}
 		if a.N > 0 {
 			nA, nB = a.N, a.N
